@@ -100,9 +100,10 @@ def entry_value(e, ns=None):
         return object()
     if e["kind"] == "cfg":
         return ns[f"A_{e['name']}"]()
+    npint = bool(ns and ns.get("__npint"))
     if e["kind"] == "pytree":
-        return pt.build(gt.from_json(e["tree"]), lambda p: np.zeros(p))
-    return np.zeros(tuple(e["shape"]))
+        return pt.build(gt.from_json(e["tree"]), lambda p: gc.make_array(p, npint))
+    return gc.make_array(e["shape"], npint)
 
 
 def entry_model(e, m):
@@ -152,7 +153,7 @@ def walk(case):
 
 
 def build(case, ck, fname):
-    ns = {"__ret": [None], "__calls": [], "__name__": "vf_generated"}
+    ns = {"__ret": [None], "__calls": [], "__name__": "vf_generated", "__npint": bool(case.get("npint_shapes"))}
     parts = []
     n = len(case["params"])
     for i, p in enumerate(case["params"]):
@@ -190,12 +191,12 @@ def check_case(ctx, case):
         return
     desc = {"params": [(p["name"], p["kind"], gc.spec_of(p) if p["kind"] not in ("cfg", "unrepr", "fickle") else p["kind"], p.get("structure"), p.get("shape", p.get("tree"))) for p in case["params"]],
             "ret": (gc.spec_of(case["ret"]), case["ret"]["shape"]) if case["ret"] else None, "flag": case["flag"],
-            "defaults": [case.get("ndefaults", 0), case.get("omit", 0)], "async": bool(case.get("is_async"))}
+            "defaults": [case.get("ndefaults", 0), case.get("omit", 0)], "async": bool(case.get("is_async")), "sizes_reported_as_numpy_integers": bool(case.get("npint_shapes"))}
     keep_n = kept(case)
     fickle = any(p["kind"] == "fickle" for p in case["params"][:keep_n])  # (an omitted, defaulted parameter is never looked at)
     for ck in ("typeguard", "beartype"):
         fn, ns = build(case, ck, case["fname"])
-        ns["__ret"][0] = entry_value(case["ret"]) if case["ret"] else None
+        ns["__ret"][0] = entry_value(case["ret"], ns) if case["ret"] else None
         for style in ("pos", "kw"):
             vals = [entry_value(p, ns) for p in case["params"]]
             keep = kept(case)  # the last `omit` (defaulted) arguments are not passed
@@ -356,6 +357,7 @@ def c13_case(draw):
     case["flag"] = draw(st.sampled_from([True, False]))
     case["fname"] = draw(st.sampled_from(FNAMES))
     case["is_async"] = draw(st.sampled_from([False, True, False, False]))
+    case["npint_shapes"] = draw(st.sampled_from([False, True, False]))
     if min(case["omit"], case["ndefaults"]) == 0 and draw(st.integers(0, 2)) == 0:
         # an f-string axis over an earlier array argument on a (well-typed) later parameter: '{x.shape[0]} ...'
         arrs = [i for i, p in enumerate(case["params"]) if p["kind"] == "array"]
